@@ -339,17 +339,20 @@ def mixed_load(seed=1, conns=8, seconds=4.0, nkeys=6):
         # fresh probes of every key (and of the server itself)
         dead = []
         for kname in keys + ["<ping>"]:
-            try:
-                c = srv.client(timeout=5.0)
-                (c.cmd("PING") if kname == "<ping>" else c.cmd("TYPE", kname))
-                c.close()
-            except Exception as e:
-                dead.append(kname)
+            for tmo in (5.0, 20.0):          # a second, longer try: a slow answer on a loaded machine is not a wedge
+                try:
+                    c = srv.client(timeout=tmo)
+                    (c.cmd("PING") if kname == "<ping>" else c.cmd("TYPE", kname))
+                    c.close()
+                    break
+                except Exception as e:
+                    if tmo == 20.0:
+                        dead.append(kname)
         stats["unanswered_under_load"] = len(hung)
         if dead and srv.alive():
             first = hung[0] if hung else (None, None, "")
             probs.append({"kind": "wedged", "keys_not_answering": dead, "first_unanswered": {"connection": first[0], "argv": first[1], "error": first[2]},
-                          "detail": "after %d commands of mixed load on %d shared keys a fresh connection gets no answer to TYPE for %s within 5 s (first command that was never answered: %s)" % (
+                          "detail": "after %d commands of mixed load on %d shared keys a fresh connection gets no answer to TYPE for %s within 5 s and again within 20 s (first command that was never answered: %s)" % (
                               stats["commands"], nkeys, ", ".join(dead), " ".join(first[1]) if first[1] else "none")})
         elif hung and not srv.alive():
             probs.append({"kind": "server-died", "detail": "the server process died under mixed load: " + srv.tail(1200)})
